@@ -122,6 +122,10 @@ type DecorateProgram struct {
 	PlainOwner bool   // attachments carry a plain (non-controller) ownerReference to the target
 	// FinalizeAtOnce: the finalize answer is finalized:true with no attachments straight away
 	FinalizeAtOnce bool
+	// ResyncOnce: the first answer about a target asks to be called again after so many
+	// seconds (resyncAfterSeconds) and marks the target with an annotation; answers
+	// about a marked target do not ask again
+	ResyncOnce float64
 }
 
 func (dp *DecorateProgram) attachments(req Object) []Object {
@@ -164,6 +168,20 @@ func (dp *DecorateProgram) Sync(req Object) Object {
 			total += len(observedOf(req, "attachments", k))
 		}
 		resp["status"] = Object{"decorated": dp.Tag, "attachments": int64(total), "mode": getStr(dec, "statusMode")}
+	}
+	if dp.ResyncOnce > 0 {
+		key := "resync-asked-" + dp.Tag
+		ann := Object{}
+		if a, ok := resp["annotations"].(map[string]interface{}); ok {
+			for k, v := range a {
+				ann[k] = v
+			}
+		}
+		if getStr(obj, "metadata", "annotations", key) != "yes" {
+			resp["resyncAfterSeconds"] = dp.ResyncOnce
+		}
+		ann[key] = "yes"
+		resp["annotations"] = ann
 	}
 	return resp
 }
@@ -222,6 +240,7 @@ func NewTarget(res *Resource, ns, name string, replicas int, lbls, anns map[stri
 type DGenOpts struct {
 	PlainOwner    bool // allow programs whose attachments carry a plain ownerReference to the target
 	AtOnce        bool // allow finalize programs that answer finalized:true with no attachments straight away
+	ResyncOnce    bool // allow programs that ask once per target to be called again later (resyncAfterSeconds)
 	MaxDecorators int
 	Finalize      int // 0 draw, 1 always, -1 never
 	MaxWorkers    int
@@ -271,6 +290,11 @@ func NewDecoratorSetup(w *World, g DGenOpts) *DSetup {
 		ds.Opts.Decorators = append(ds.Opts.Decorators, c)
 		dp := &DecorateProgram{Kinds: []*Resource{ak}, Tag: c.Name, PlainOwner: g.PlainOwner && t.Pick(6, "plainowner") == 5}
 		dp.FinalizeAtOnce = g.AtOnce && t.Pick(3, "atonce") == 2
+		if g.ResyncOnce && t.Pick(3, "resynconce") == 2 {
+			dp.ResyncOnce = []float64{2, 8}[t.Pick(2, "resyncafter")]
+			w.ExtraQuiet = 10e9 // rest is judged only after the delayed key has come back
+			w.Cfg["resyncAfterSeconds"] = fmt.Sprint(dp.ResyncOnce)
+		}
 		ds.Progs[c.Name] = &Program{Sync: dp.Sync, Finalize: dp.Finalize}
 		mustCreate(w.Store, ResDecoratorCtl, "", c.Object(), "setup")
 	}
